@@ -88,6 +88,20 @@ parser { loop { x = 0; case { /[a-z]+/ -> { x = 1; yield W; } " " -> { h(); } } 
     ("feat-yield-then-action", ["-fyield-support"], """out int{unsigned, size 1} n = 0; yieldcode W, S; hook h;
 parser { loop { case { "(" -> { n = [n + 1]; yield S; n = [n + 2]; } /[a-z]/ -> { yield W; } " " -> { h(); } } n = [n * 2]; } }"""),
 ]
+# an append that can overflow and a yield carried by the same clause (the overflow redirect must not move the position)
+FEATURES += [
+    ("feat-append-yield", ["-fyield-support"], """yieldcode WORD, FULL; out str[3] s; hook h;
+parser { loop { try { case { /[a-z]/ -> { s += [65]; yield WORD; } " " -> { h(); } } } catch (outofspace) { yield FULL; delete s; } } }"""),
+    ("feat-append-yield-silent", ["-fyield-support", "-O3"], """yieldcode WORD; out str[3] s; hook h;
+parser { loop { try { case { /[a-z]/ -> { s += [$last]; yield WORD; } " " -> { h(); } } } catch (outofspace) { delete s; } } }"""),
+    # ... and handlers that leave the buffer full: every later word overflows again, each time consuming its byte
+    ("feat-append-yield-full", ["-fyield-support"], """yieldcode WORD, OVER; out str[3] s;
+parser { loop { try { case { /[a-z]/ -> { s += [65]; yield WORD; } " " -> {} } } catch (outofspace) { yield OVER; } } }"""),
+    ("feat-append-yield-full-silent", ["-fyield-support"], """yieldcode WORD; out str[3] s;
+parser { loop { try { case { /[a-z]/ -> { s += [65]; yield WORD; } " " -> {} } } catch (outofspace) { } } }"""),
+    ("feat-yield-eof", ["-fyield-support", "-feof-support"], """yieldcode W, N, E; out int n = 0;
+parser { loop { greedy case { /\\s+/ -> { yield E; } /[a-z]+/ -> { yield W; } /\\d+/ -> { n = [n + 1]; yield N; } "(" -> { yield E; } end -> { break; } } } n = 7; }"""),
+]
 # a program ending in an action-less fall-through into its final state (empty else clause / empty catch block)
 FEATURES += [
     ("feat-final-else", [], """out int m = 0; hook h;
